@@ -29,6 +29,8 @@ def gen_case(seed, k):
     else:
         ts = G.random_trait_set(rng)
         td = G.random_type(rng, ts, G.Opts(rich=True, generics=True, bounds=False))
+    if td.kind != "union" and rng.random() < 0.1:
+        G.add_self_recursive_field(rng, td)
     typarams = [p["name"] for p in td.params if p["kind"] == "ty"]
     ts = set(td.traits)
     # override bound modes (the result need not type-check: D2 only looks at tokens)
